@@ -878,3 +878,84 @@ func ruleSoftGlobal(rule string) RuleFn {
 		c.Check(mentions, rule, "soft groups nested in parameter objects are deferred behind the whole parameter list", "BuildList takes part in the soft deferral", "soft groups are deferred only among the direct fields of one dig.In struct: with a constructor returning {Logger, Handler `group:\"handlers\"`}, In{Handlers soft; Logger} receives 1 handler, but In{Groups In{Handlers soft}; Logger} and func(g Groups, l *Logger) receive 0 - the same function in three encodings of its signature", nil, nil)
 	}
 }
+
+// ruleCyclePathClosed (X-cycle-closed, C05): "a reported cycle path is a real closed path".
+func ruleCyclePathClosed(rule string) RuleFn {
+	return func(c *an.Ctx) {
+		c.Rule(rule, "X-cycle-closed: Scope.cycleDetectedError lists only the constructor nodes of the cycle IsAcyclic reported (value-group nodes are not listed). The reported cycle [n0 ... n0] starts and ends with the same node; if that node is a group node, dropping it leaves an OPEN chain (X depends on A) - so the function looks at what kind of node cycle[0] is and, when it is not a constructor, closes the path by repeating its first entry")
+		fn := c.Fn(rule, "(*dig.Scope).cycleDetectedError")
+		if fn == nil {
+			return
+		}
+		// an append of path[0] to path
+		closes := false
+		an.Instrs(fn, func(in ssa.Instruction) {
+			k, ok := in.(*ssa.Call)
+			if !ok {
+				return
+			}
+			b, ok := k.Common().Value.(*ssa.Builtin)
+			if !ok || b.Name() != "append" || len(k.Common().Args) != 2 {
+				return
+			}
+			if s := an.Norm(k.Common().Args[1]); regexp.MustCompile(`\[0\]`).MatchString(s) && !strings.Contains(s, "p:cycle[0]") {
+				closes = true
+			}
+			// append(path, path[0]): the element sits in the variadic slice
+			first := an.Norm(k.Common().Args[0])
+			if sl, ok := k.Common().Args[1].(*ssa.Slice); ok {
+				if al, ok := sl.X.(*ssa.Alloc); ok {
+					for _, r := range an.Referrers(al) {
+						if ia, ok := r.(*ssa.IndexAddr); ok {
+							for _, rr := range an.Referrers(ia) {
+								if st, ok := rr.(*ssa.Store); ok && an.Norm(st.Val) == first+"[0]" {
+									closes = true
+								}
+							}
+						}
+					}
+				}
+			}
+		})
+		looksAtFirst := false
+		an.Instrs(fn, func(in ssa.Instruction) {
+			if k, ok := in.(ssa.CallInstruction); ok && strings.HasSuffix(an.CalleeName(k), ".Lookup") {
+				for _, a := range k.Common().Args {
+					if strings.Contains(an.Norm(a), "p:cycle[0]") {
+						looksAtFirst = true
+					}
+				}
+			}
+		})
+		c.Check(closes && looksAtFirst, rule, "cycleDetectedError closes the path when the cycle was entered at a value-group node", "cycle[0] not a constructor -> path = append(path, path[0])", "the reported path can be an open chain: Provide(func(in{[]*X `group:\"g\"`}) *A) and then Provide(func(*A) *X, Group(\"g\")) is rejected with the path 'X depends on A' (two entries, not closed), while the same two Provides in the other order report 'X -> A -> X'", nil, nil)
+	}
+}
+
+// ruleGroupFailureOrder (L-group-failure-order, C16) - KNOWN FINDING.
+func ruleGroupFailureOrder(rule string) RuleFn {
+	return func(c *an.Ctx) {
+		c.Rule(rule, "L-group-failure-order: which members of a value group have been executed after an Invoke of the group failed does not depend on the order the members were registered in: callGroupProviders does not return from inside its loop over the providers (it calls every member and reports the first error afterwards, or calls none after a failure in a way that later Invokes cannot observe)")
+		fn := c.Fn(rule, "(dig.paramGroupedSlice).callGroupProviders")
+		if fn == nil {
+			return
+		}
+		early := false
+		for _, l := range allLoops(fn) {
+			inner := false
+			for b := range l.body {
+				for _, in := range b.Instrs {
+					if k, ok := in.(*ssa.Call); ok && k.Common().IsInvoke() && k.Common().Method.Name() == "Call" {
+						inner = true
+					}
+				}
+			}
+			if !inner {
+				continue
+			}
+			if len(l.earlyExits()) > 0 {
+				early = true
+			}
+		}
+		c.Check(!early, rule, "callGroupProviders calls the members of a group independently of their registration order", "no return from inside the provider loop", "callGroupProviders stops at the first failing member: with one working and one broken member the Invoke of the group fails either way, but whether the working member has run (and a later soft consumer sees its value, or a later Invoke of one of its other results finds it cached) depends on which of the two was provided first", nil, nil)
+	}
+}
